@@ -175,7 +175,7 @@ def cmdP (s : State) : P Cmd := do
 def setMetaP (s : State) : P (Nat × Meta) := do
   let c ← chanP
   let cur := curMeta s c
-  let cep ← lit; let lep ← lit; let leader ← lit; let minisr ← lit; let lease ← lit
+  let cep ← val cur.cep; let lep ← val cur.lep; let leader ← val cur.leader; let minisr ← val cur.minisr; let lease ← val cur.lease
   let replicas ← listP; let isr ← listP
   let ftok ← val cur.ftok; let fver ← val cur.fver; let freason ← val8 cur.freason; let funtil ← val cur.funtil
   done
